@@ -175,6 +175,48 @@ pub fn constructs() -> Vec<K> {
       },
     },
     K { name: "invoke-non-function", arity: 2, build: |o| T::Call(bx(&o[0]), vec![o[1].clone()]) },
+    // a function without parameters, invoked, and another operand read after the invocation has ended
+    K { name: "invoke-nullary", arity: 2, build: |o| T::List(vec![T::Call(Box::new(T::Func(vec![], bx(&o[0]))), vec![]), o[1].clone()]) },
+    K {
+      name: "invoke-nullary-in-context",
+      arity: 2,
+      build: |o| {
+        T::Path(
+          Box::new(T::Ctx(vec![
+            ("a".into(), o[1].clone()),
+            ("f".into(), T::Func(vec![], bx(&o[0]))),
+            ("r".into(), T::Call(Box::new(v("f")), vec![])),
+            ("b".into(), T::List(vec![v("r"), v("a"), o[1].clone()])),
+          ])),
+          "b".into(),
+        )
+      },
+    },
+    // ... invoked from the body of an iteration, whose variable is read after the invocation
+    K {
+      name: "invoke-nullary-in-for",
+      arity: 2,
+      build: |o| {
+        T::For(
+          vec![("i".into(), Dom::Single(o[1].clone()))],
+          Box::new(T::List(vec![T::Call(Box::new(T::Func(vec![], bx(&o[0]))), vec![]), v("i")])),
+        )
+      },
+    },
+    // one function invoked from the body of another: the outer parameter is read after the inner invocation has ended
+    K {
+      name: "invoke-nested",
+      arity: 2,
+      build: |o| {
+        T::Call(
+          Box::new(T::Func(
+            vec![("p".into(), None)],
+            Box::new(T::List(vec![T::Call(Box::new(T::Func(vec![("q".into(), None)], Box::new(T::List(vec![v("q"), v("p")])))), vec![o[1].clone()]), v("p")])),
+          )),
+          vec![o[0].clone()],
+        )
+      },
+    },
     // a function value that leaves its defining context and captures an entry of it
     K {
       name: "closure-escape",
